@@ -14,6 +14,7 @@ type Config struct {
 	Deadline   time.Time // zero = none
 	MaxExecs   int64     // 0 = none
 	ShardDepth int       // deviation depth at which subtrees are dealt to shards (default 2)
+	Sleep      bool      // sleep-set partial-order reduction (only valid with Bound < 0)
 }
 
 // Verdict of the per-execution oracle.
@@ -47,6 +48,7 @@ type Stats struct {
 	ViolationCount map[string]int64 `json:"violation_count"`
 	Sample         []string         `json:"sample,omitempty"`
 	WallS          float64          `json:"wall_s"`
+	SleepBlocked   int64            `json:"sleep_blocked"`
 }
 
 type explorer struct {
@@ -66,6 +68,9 @@ func Explore(cfg Config, body func(), oracle func(*ExecResult) Verdict) *Stats {
 	}
 	if cfg.ShardDepth == 0 {
 		cfg.ShardDepth = 2
+	}
+	if cfg.Sleep && cfg.Bound >= 0 {
+		toolFail("sleep sets must not be combined with a preemption bound")
 	}
 	if cfg.Bound >= 0 && cfg.ShardDepth > cfg.Bound {
 		cfg.ShardDepth = cfg.Bound
@@ -108,13 +113,18 @@ func (e *explorer) explore(prefix []int, used int, depth int) {
 		e.stop = true
 		return
 	}
-	x := RunOnce(prefix, false, e.body)
-	if e.owner(depth) {
+	x := runOnce(prefix, false, e.cfg.Sleep, e.body)
+	if x.Status == "sleep-blocked" {
+		e.st.SleepBlocked++
+	} else if e.owner(depth) {
 		e.record(x, prefix, used)
 	}
 	for i := len(prefix); i < len(x.Trace); i++ {
 		d := x.Trace[i]
-		for alt := 1; alt < d.N; alt++ {
+		for alt := d.Chosen + 1; alt < d.N; alt++ {
+			if e.cfg.Sleep && d.Awake&(1<<uint(alt)) == 0 {
+				continue
+			}
 			cost := 0
 			if alt >= d.NFree {
 				cost = 1
@@ -163,7 +173,7 @@ func (e *explorer) record(x *ExecResult, prefix []int, used int) {
 			for r := 0; r < 5; r++ {
 				// four plain replays must reproduce the observations byte for byte; the
 				// fifth runs with call-site descriptions (which may appear in messages)
-				y := RunOnce(ch, r == 4, e.body)
+				y := runOnce(ch, r == 4, e.cfg.Sleep, e.body)
 				w := e.oracle(y)
 				same := w.Key == v.Key && fmt.Sprint(y.Choices()) == fmt.Sprint(ch)
 				if r < 4 {
@@ -181,7 +191,7 @@ func (e *explorer) record(x *ExecResult, prefix []int, used int) {
 		}
 	}
 	if len(st.Sample) == 0 && len(prefix) > 0 {
-		y := RunOnce(x.Choices(), true, e.body)
+		y := runOnce(x.Choices(), true, e.cfg.Sleep, e.body)
 		st.Sample = y.Desc
 	}
 }
